@@ -15,6 +15,12 @@ sys.path.insert(0, "/verif"); sys.path.insert(1, "/repo")
 os.environ["VF_ALL_SHARDS"] = "1"
 from vlib import registry
 
+try:
+    PREVIOUS = json.load(open("/verif/vlib/thorough_validated.json"))
+except (OSError, ValueError):
+    PREVIOUS = {}
+if os.environ.get("VF_VALIDATED_RESET"):
+    PREVIOUS = {}
 out = {}
 stats = {}
 for prop in registry.PROPS:
@@ -22,7 +28,8 @@ for prop in registry.PROPS:
         if "thorough" not in c.tiers:
             continue
         current = c.shards("thorough")
-        ok = []
+        # pins validated by earlier runs stay validated (the per-shard result files are overwritten by later runs)
+        ok = [p for p in PREVIOUS.get(c.name, []) if p in current]
         seen = 0
         for f in glob.glob("/verif/build/%s/thorough/%s__s*.json" % (prop, c.name)):
             try:
